@@ -2,6 +2,7 @@ package dvsim
 
 import (
 	"fmt"
+	"runtime"
 	"strings"
 	"time"
 
@@ -12,6 +13,7 @@ import (
 	enc "github.com/named-data/ndnd/std/encoding"
 	"github.com/named-data/ndnd/std/log"
 	"github.com/named-data/ndnd/std/ndn"
+	mgmt "github.com/named-data/ndnd/std/ndn/mgmt_2022"
 	spec "github.com/named-data/ndnd/std/ndn/spec_2022"
 	"verif/shim/vsched"
 	"verif/shim/vtime"
@@ -33,7 +35,7 @@ type Node struct {
 	// reference route table: replay of every rib register/unregister drained from the nfdc queue
 	Routes map[RouteKey]uint64
 	// commands drained after the last operation
-	LastCmds []nfdc.NfdMgmtCmd
+	LastCmds []ExecRec
 	// malformed commands seen (C19.cmd)
 	CmdProblems []string
 
@@ -80,8 +82,21 @@ func init() {
 	log.SetLevel(log.FatalLevel)
 }
 
-// NewSim builds N fresh routers. Nothing has been exchanged yet: every router knows only itself.
-func NewSim(g Graph) *Sim {
+// Options of a simulation.
+type Options struct {
+	// RouterPrefix is the name prefix of the routers (router i is <RouterPrefix>/r<i>); default
+	// Network ("/ndn"), i.e. two-component router names.
+	RouterPrefix string
+}
+
+// NewSim builds N fresh routers with default options.
+func NewSim(g Graph) *Sim { return NewSimOpt(g, Options{}) }
+
+// NewSimOpt builds N fresh routers. Nothing has been exchanged yet: every router knows only itself.
+func NewSimOpt(g Graph, o Options) *Sim {
+	if o.RouterPrefix == "" {
+		o.RouterPrefix = Network
+	}
 	vtime.Reset(false)
 	vsched.Reset()
 	s := &Sim{G: g, Live: map[[2]int]bool{}, Alt: map[[2]int]bool{}, Passive: map[[2]int]bool{}, byName: map[string]int{}, byHash: map[uint64]int{}, Universe: map[string]bool{}, TaskCap: 100000}
@@ -89,7 +104,7 @@ func NewSim(g Graph) *Sim {
 		s.Live[e] = true
 	}
 	for i := 0; i < g.N; i++ {
-		n := &Node{Idx: i, NameStr: fmt.Sprintf("%s/r%d", Network, i)}
+		n := &Node{Idx: i, NameStr: fmt.Sprintf("%s/r%d", o.RouterPrefix, i)}
 		s.Nodes = append(s.Nodes, n)
 		s.byName[n.NameStr] = i
 		nm, err := enc.NameFromStr(n.NameStr)
@@ -110,13 +125,19 @@ func (s *Sim) boot(i int) {
 	cfg.Network = Network
 	cfg.Router = n.NameStr
 	n.Cfg = cfg
-	n.Eng = &Engine{sim: s, idx: i}
+	if n.DV != nil {
+		n.DV.VerifNfdc().Stop() // previous incarnation's management goroutine
+	}
+	n.Eng = &Engine{sim: s, idx: i, barrier: make(chan struct{}, 1)}
 	old := vsched.SetContext(fmt.Sprintf("r%d", i))
 	r, err := dv.NewRouter(cfg, n.Eng)
 	if err != nil {
 		panic(fmt.Sprintf("NewRouter: %v", err))
 	}
 	n.DV = r
+	// The router's REAL management loop (nfdc.NfdMgmtThread.Start) runs in a real goroutine, as
+	// Router.Start would start it; what it hands to Engine.ExecMgmtCmd is what reaches the forwarder.
+	go r.VerifNfdc().Start()
 	n.Name = cfg.RouterName()
 	n.Up = true
 	n.Boots++
@@ -170,6 +191,16 @@ func (s *Sim) RunTasks() {
 func (s *Sim) HoldBefore(site, desc string) {
 	s.holdSite, s.holdCut = site, false
 	s.HeldDesc = desc + " from " + s.CanonRouting()
+}
+
+// HeldAt reports whether router i has held tasks.
+func (s *Sim) HeldAt(i int) bool {
+	for _, t := range s.Held {
+		if t.Ctx == fmt.Sprintf("r%d", i) {
+			return true
+		}
+	}
+	return false
 }
 
 // Release puts the held tasks back at the end of the run queue and runs everything to quiescence.
@@ -536,6 +567,84 @@ func (s *Sim) DeadCheck(i int) {
 	s.RunTasks()
 }
 
+// DeadCheckRace is DeadCheck with the held tasks of router i competing for dv.mutex against
+// checkDeadNeighbors: every held task of i first runs whatever it does BEFORE taking the mutex,
+// then checkDeadNeighbors runs, then the held tasks continue in FIFO order. The order is produced
+// with real goroutines and the real mutex: the harness holds i's mutex, starts checkDeadNeighbors
+// in a goroutine (it blocks in Lock), then starts the held tasks one by one, each running until it
+// blocks in Lock (or ends); then the harness lets go and waits for all of them. With code whose
+// tasks begin with dv.mutex.Lock() this equals "Dc(i) ; release"; it differs exactly when a task
+// touches router state before locking.
+func (s *Sim) DeadCheckRace(i int) {
+	n := s.Nodes[i]
+	s.AdvanceClock(n.Cfg.RouterDeadInterval() + time.Millisecond)
+	for _, j := range s.LiveNeighbors(i) {
+		s.Exchange(i, j)
+	}
+	ctx := fmt.Sprintf("r%d", i)
+	var mine, rest []*vsched.Task
+	for _, t := range s.Held {
+		if t.Ctx == ctx {
+			mine = append(mine, t)
+		} else {
+			rest = append(rest, t)
+		}
+	}
+	old := vsched.SetContext(ctx)
+	defer vsched.SetContext(old)
+	if len(mine) == 0 {
+		n.DV.VerifCheckDead()
+		s.RunTasks()
+		return
+	}
+	n.DV.VerifMutexLock()
+	done := make(chan struct{}, len(mine)+1)
+	started, finished := 0, 0
+	settle := func() bool { // wait until every started goroutine is blocked in Lock or has ended
+		deadline := time.Now().Add(5 * time.Second)
+		for {
+			for drained := false; !drained; {
+				select {
+				case <-done:
+					finished++
+				default:
+					drained = true
+				}
+			}
+			if n.DV.VerifMutexWaiters()+finished == started {
+				return true
+			}
+			if time.Now().After(deadline) {
+				return false
+			}
+			runtime.Gosched()
+		}
+	}
+	ok := true
+	started++
+	go func() { n.DV.VerifCheckDead(); done <- struct{}{} }()
+	ok = settle() && ok
+	for _, t := range mine {
+		t := t
+		started++
+		go func() { t.Run(); done <- struct{}{} }()
+		ok = settle() && ok
+	}
+	n.DV.VerifMutexUnlock()
+	for finished < started {
+		<-done
+		finished++
+	}
+	if !ok {
+		s.Problems = append(s.Problems, fmt.Sprintf("DeadCheckRace(r%d): goroutines did not settle behind the mutex", i))
+	}
+	s.Held = rest
+	if len(rest) == 0 {
+		s.HeldDesc = ""
+	}
+	s.RunTasks()
+}
+
 func (s *Sim) LinkDown(i, j int) { delete(s.Live, key(i, j)) }
 func (s *Sim) LinkUp(i, j int)   { s.Live[key(i, j)] = true }
 
@@ -573,7 +682,11 @@ func (s *Sim) Drain() {
 		if n.DV == nil {
 			continue
 		}
-		cmds := n.DV.VerifNfdc().VerifDrain()
+		// barrier: wait until the management goroutine has processed everything queued so far
+		n.DV.VerifNfdc().Exec(nfdc.NfdMgmtCmd{Module: barrierModule, Cmd: "sync", Args: &mgmt.ControlArgs{}, Retries: 1})
+		<-n.Eng.barrier
+		cmds := n.Eng.execd
+		n.Eng.execd = nil
 		n.LastCmds = cmds
 		for _, c := range cmds {
 			s.applyCmd(n, c)
@@ -581,7 +694,18 @@ func (s *Sim) Drain() {
 	}
 }
 
-func (s *Sim) applyCmd(n *Node, c nfdc.NfdMgmtCmd) {
+// Close stops the management goroutines of this simulation (call it when the simulation is
+// discarded; the goroutines otherwise stay blocked on their queues for ever).
+func (s *Sim) Close() {
+	for _, n := range s.Nodes {
+		if n.DV != nil {
+			n.DV.VerifNfdc().Stop()
+			n.DV = nil
+		}
+	}
+}
+
+func (s *Sim) applyCmd(n *Node, c ExecRec) {
 	bad := func(f string, a ...any) {
 		n.CmdProblems = append(n.CmdProblems, fmt.Sprintf(f, a...))
 	}
